@@ -50,6 +50,27 @@ CHECKS = {
         "Trusted: key computation in the harness; scheduler stand-ins; change visibility bracketed by [record time, return time] so stale-read classifications never rest on a tie. Two listed known findings are excluded by construction and re-confirmed by directed probes.",
         "DESIGN.md 3 C06, A.5",
     ),
+    "C04": (
+        "exploration",
+        "Hypothesis stateful machine (Mem + SQLite in lock-step, stepped virtual clock on an exact 1/64 s grid) vs a reference model of the recovery scans; lost races injected at a chosen point of the real core-task bodies",
+        "Histories of submits, claims, starts, finishes, own and parent-reported heartbeats and boundary-centred clock advances; both recovery scans are compared with the model (exactly the stuck ids: >= limit for PENDING, no heartbeat within the timeout for RUNNING owners), the real recover_pending/recover_running bodies must leave every stuck id REROUTED and queued exactly once more, every other id untouched, nothing in a *_RECOVERY status - also when the owner of a scanned id progresses between scan and transition.",
+        "Trusted: model of A.4; virtual clock substituted for module-level time/datetime names; queue membership read white-box (read-only).",
+        "DESIGN.md 3 C04, A.4",
+    ),
+    "C07": (
+        "exploration",
+        "Hypothesis stateful machine per registration configuration, Mem + SQLite in lock-step with a key -> REGISTERED-invocation model",
+        "Sequences of submissions (argument values with repeats, positional/keyword/defaults-omitted spellings) interleaved with transitions that move invocations out of REGISTERED, for DISABLED/TASK/ARGUMENTS/KEYS x key subsets x raise option: a duplicate returns the existing invocation and creates nothing (invocation and queue counts), otherwise exactly one new invocation; at most one REGISTERED per key after every step; KEYS+raise rejects differing non-key arguments without changing anything.",
+        "Trusted: registration keys computed by the harness; raise option generated only with KEYS mode.",
+        "DESIGN.md 3 C07, A.5",
+    ),
+    "C15": (
+        "exploration",
+        "Hypothesis over recursively generated values per serializer domain: round-trip oracles (serializer, client data store, full storage trip), metamorphic call-identity relations across spellings/submission paths, injectivity of the args id over adversarial string dicts",
+        "Serializer and store round-trips for Json/JsonPickle/Pickle x Mem/SQLite x thresholds 16/64/1024 with sizes at threshold -1/0/+1, disable flags and a 2-entry LRU; content addressing (equal content -> equal reference; a reference keeps resolving to the content it was created from after caller mutation, eviction, reader mutation, fresh reader); the worker-side LazyCall arguments and the client-side result equal the originals; all spellings and submission paths of a call share one call_id and call_id equality coincides with equality of the serialized arguments; compute_args_id is injective on generated dict pairs.",
+        "Trusted: structural NaN-/type-aware equality; reserved-prefix strings and non-string keys (except pickle) are outside the generated domain; another process image = cleared process-local cache.",
+        "DESIGN.md 3 C15, A.11",
+    ),
 }
 
 NOT_YET = "check not built yet in this session (work in progress, see DESIGN.md section 3)"
